@@ -64,14 +64,18 @@ class _Sink(object):
         pass
 
 
-_default_array_equal = nptdms.reader._array_equal.__defaults__
 
 
 @contextlib.contextmanager
 def knobs(dedup_chunk=None, debug_log=False):
     """Tuning constants randomised per world (swarm knobs)."""
-    if dedup_chunk is not None:
-        nptdms.reader._array_equal.__defaults__ = (dedup_chunk,)
+    f = getattr(nptdms.reader, '_array_equal', None)
+    # the seam exists only while the function keeps its one defaulted `chunk_size` parameter; otherwise the knob is a no-op
+    usable = (f is not None and f.__defaults__ is not None and len(f.__defaults__) == 1 and
+              f.__code__.co_varnames[:f.__code__.co_argcount][-1:] == ('chunk_size',))
+    prev_defaults = f.__defaults__ if usable else None
+    if dedup_chunk is not None and usable:
+        f.__defaults__ = (dedup_chunk,)
     old_stream = None
     if debug_log:
         # DEBUG takes extra branches (lead-in, raw data index, DAQmx metadata repr); the records are formatted
@@ -82,7 +86,8 @@ def knobs(dedup_chunk=None, debug_log=False):
     try:
         yield
     finally:
-        nptdms.reader._array_equal.__defaults__ = _default_array_equal
+        if usable:
+            f.__defaults__ = prev_defaults
         if debug_log:
             set_log_level(logging.ERROR)
             log_manager.console_handler.setLevel(logging.CRITICAL + 1)
